@@ -28,6 +28,15 @@ TRUSTED_BASE = [
     "metrics by StreamFixture::http_get_router_list / http_get_router_info (verif-hooks); each request in a task of its own (a panic = `panic`); "
     "every /metrics text is read by the harness's independent exposition-format reader (engines/promtext.rs): `m1` = well formed, and the text after "
     "the session gives the `K:` token (router's unit series gone, connection_lost_count, bmp_num_connected_routers) - model: BmpStreamModel.unit_final",
+    "op H (back-pressure): the receiving end of the fixture's gate (a real Link in direct-update mode) stops taking updates "
+    "(StreamFixture::hold_updates_after, verif-hooks); the run is on a current-thread tokio runtime with a PAUSED clock that carries the gate's tasks and "
+    "every timer, the connection's future is driven by a 40-line executor of the harness on a thread of that runtime's blocking pool (a cloned Gate "
+    "detaches with block_in_place, which a current-thread runtime refuses); tokio does not auto-advance the clock while that thread lives, the harness "
+    "advances it by one hour once the session's thread and the runtime have nothing left to do, waits for both to settle again, then releases; trusted: "
+    "tokio's paused clock fires every timer (tokio::time::timeout/sleep/interval) whose deadline has passed when it is advanced",
+    "op L (register contention): a thread of the harness holds the ingress register's write lock (Register::verif_with_write_lock, verif-hooks) from the "
+    "moment the reader reaches the op until connection_lost_count is 1 (the handler has left its read loop; its next use of the register is ids_for_parent) "
+    "plus 15 ms, at most 400 ms: a handler that does not wait for the lock is over by then, one that waits is released",
     "modelled, not verified: src/units/bmp_tcp_in/{io.rs,router_handler.rs}; the state machine and the ingress register are the models of C05/C14; "
     "routecore's BMP/BGP parsers and tokio are exercised, never modelled: the parser is a parameter of the model and every theorem holds for every parser",
 ]
@@ -42,6 +51,9 @@ ASSUMPTIONS = [
     "HashMap iteration order is arbitrary: id lists are compared as sorted lists of canonical names",
     "the HTTP client visits while the connection waits for its next read (between two reads): a request concurrent with process_msg is not explored; "
     "a visit after the session ended is not made (in production the router's endpoint is gone by then)",
+    "back-pressure is the receiving unit not returning from direct_update; queue-mode links (unused in rotonda) are not exercised; one hold per case, "
+    "of one virtual hour; the receiving end holds whole updates (a direct_update cancelled half-way through a RIB is C01/C12 territory)",
+    "each Register method is one atomic step (C14's assumption): op L checks it for ids_for_parent at session end against a writer that is inside the register",
     "recent parse errors are one per InvalidMessage answer of the state machine (arrival numbers); an UPDATE re-parsed with the other AS width "
     "(soft fail) is not modelled - no generated well-formed stream produces one (it would show as a different e<count>); arrival order on the page is "
     "read off the entries' timestamps (wall clock, nanoseconds)",
@@ -58,6 +70,17 @@ def render(descrs):
 
 
 GET = "G"      # stream item: an HTTP client asks for the unit's pages at this point (no read event)
+LOCK = "L"     # stream item: another party takes the ingress register's write lock at this point (no read event)
+
+
+def HOLD(n):
+    """stream item: from this point on the receiving end of the gate takes n more updates, then holds (no read event)"""
+    return f"H {n}"
+
+
+def is_marker(x):
+    """stream items that are not read events (error kinds are lower case)"""
+    return isinstance(x, str) and x[:1].isupper()
 
 
 class Stream:
@@ -88,7 +111,7 @@ class Stream:
                     return frames, "end"
                 x = it[i]
                 i += 1
-                if x == GET:
+                if is_marker(x):
                     continue
                 if isinstance(x, str):
                     if x not in NONFATAL and stop_at_fatal:
@@ -117,7 +140,7 @@ class Stream:
                     return frames, "end"
                 x = it[i]
                 i += 1
-                if x == GET:
+                if is_marker(x):
                     continue
                 if isinstance(x, str):
                     if x not in NONFATAL and stop_at_fatal:
@@ -142,9 +165,9 @@ class Stream:
                 out.append("B " + b[:n].hex())
                 b = b[n:]
         for x in self.items:
-            if x == GET:
+            if is_marker(x):
                 flush()
-                out.append("G")
+                out.append(x)
             elif isinstance(x, str):
                 flush()
                 out.append("E " + x)
@@ -243,6 +266,12 @@ def classify(case, out):
         ks.append("updates-from-c04-encoder")
     if out.strip() == "HUGE":
         ks.append("huge-skipped")
+    for x in t:
+        if x.startswith("h:"):
+            ks.append({"h:W": "backpressure-held-the-withdrawbulk-of-the-cleanup", "h:eos": "backpressure-held-the-end-of-stream",
+                       "h:-": "backpressure-nothing-to-hold"}.get(x, "backpressure-held-an-update-of-the-stream"))
+        if x == "lk:1":
+            ks.append("register-write-locked-at-session-end")
     return ks
 
 
@@ -255,8 +284,8 @@ def stream_of_case(case):
             s.add_hex(t[1])
         elif len(t) == 2 and t[0] == "E":
             s.add_err(t[1])
-        elif t == ["G"]:
-            s.items.append(GET)
+        elif t == ["G"] or t == ["L"] or (len(t) == 2 and t[0] == "H"):
+            s.items.append(" ".join(t))
     return s
 
 
